@@ -1245,7 +1245,9 @@ func structuralDigest(b *strings.Builder, v reflect.Value, depth int) {
 			}
 			return
 		case time.Time:
-			b.WriteString("t")
+			// an instant is rendered as set / not set: its value differs between the concurrent run and the sequential
+			// replay, but whether a record carries one (redeemed at, revoked at) is state
+			b.WriteString(map[bool]string{true: "t0", false: "t1"}[x.IsZero()])
 			return
 		}
 	}
@@ -1258,7 +1260,13 @@ func structuralDigest(b *strings.Builder, v reflect.Value, depth int) {
 		structuralDigest(b, v.Elem(), depth+1)
 	case reflect.Struct:
 		if v.Type().String() == "time.Time" {
-			b.WriteString("t")
+			zero := true
+			for i := 0; i < v.NumField(); i++ {
+				if !v.Field(i).IsZero() {
+					zero = false
+				}
+			}
+			b.WriteString(map[bool]string{true: "t0", false: "t1"}[zero])
 			return
 		}
 		b.WriteString("{")
